@@ -1667,7 +1667,11 @@ std::optional<ChunkData> Node::receive_chunk(const std::string& manifest_uri, Ch
     }
 
     crypto::Key chunk_key{};
-    chunk_key.bytes = crypto::Shamir::combine(shares, manifest.threshold);
+    try {
+        chunk_key.bytes = crypto::Shamir::combine(shares, manifest.threshold);
+    } catch (const std::exception&) {
+        return std::nullopt;
+    }
 
     const auto plaintext = crypto::CryptoManager::decrypt_with_key(chunk_key,
                                                                   manifest.chunk_id,
@@ -1838,9 +1842,12 @@ std::optional<ChunkData> Node::fetch_chunk(const ChunkId& chunk_id) {
                 shares.push_back(share);
             }
 
-            const auto secret_bytes = crypto::Shamir::combine(shares, shard_threshold);
             crypto::Key chunk_key{};
-            chunk_key.bytes = secret_bytes;
+            try {
+                chunk_key.bytes = crypto::Shamir::combine(shares, shard_threshold);
+            } catch (const std::exception&) {
+                return std::nullopt;
+            }
 
             const crypto::Nonce nonce{record->nonce};
             const std::span<const std::uint8_t> ciphertext{record->data};
